@@ -31,6 +31,21 @@ def build_translators():
     return p.returncode == 0, (p.stdout + p.stderr)
 
 
+class BuildLock:
+    """serialise the coq / translator builds of concurrently running checks (one .vo tree)"""
+    def __enter__(self):
+        import fcntl
+        os.makedirs(CACHE, exist_ok=True)
+        self.f = open(os.path.join(CACHE, 'build.lock'), 'w')
+        fcntl.flock(self.f, fcntl.LOCK_EX)
+        return self
+
+    def __exit__(self, *a):
+        import fcntl
+        fcntl.flock(self.f, fcntl.LOCK_UN)
+        self.f.close()
+
+
 def build_coq():
     """Full .vo build through coq_makefile; returns (ok, log)."""
     if not os.path.exists(os.path.join(COQ, 'Makefile')) or \
